@@ -205,13 +205,13 @@ func c10Scenario(r *Run, idx int, cs c10Case) {
 			continue
 		case <-time.After(20 * time.Millisecond):
 		}
-		gs := stableDump(150 * time.Millisecond)
+		gs, all := dumpPair(150 * time.Millisecond)
 		if dumpBlind.Load() {
 			r.Broken("C10: goroutine dumps cannot be parsed; hang verdicts are void")
 			return
 		}
 		ms := "absent"
-		for _, g := range gs {
+		for _, g := range all { // from the whole second dump: a maintenance goroutine that is busy is still there
 			if g.ID > hiWater && g.has(").maintenance(") && !g.has(".maintenance.func1") {
 				ms = "present"
 			}
